@@ -2,10 +2,10 @@
 # usage: tools/try_mutant_scratch.sh <patch.diff> <Cxx> [quick|thorough]
 # Same as try_mutant.sh but never touches /repo: the patch is applied to a scratch worktree
 # (/tmp/scratch_repo) and the checks run from a scratch copy of /verif (/tmp/scratch_verif)
-# whose harness points at that worktree.  Safe to run while other checks use /repo.
+# whose harness points at that worktree.  SCRATCH_SUFFIX=_b selects a second, independent pair.  Safe to run while other checks use /repo.
 set -u
 patch="$1"; prop="$2"; tier="${3:-quick}"
-SR=/tmp/scratch_repo; SV=/tmp/scratch_verif
+X="${SCRATCH_SUFFIX:-}"; SR=/tmp/scratch_repo$X; SV=/tmp/scratch_verif$X; OUT=/tmp/try_mutant_scratch$X.out
 if [ ! -d "$SR" ]; then git -C /repo worktree add -q --detach "$SR" HEAD || exit 9; cp /repo/Cargo.lock "$SR/Cargo.lock"; fi
 ( cd "$SR" && git checkout -q --detach "$(git -C /repo rev-parse HEAD)" && git checkout -- . && git clean -fdq -e target -e Cargo.lock ) || exit 9
 mkdir -p "$SV"
@@ -13,8 +13,8 @@ rsync -a --delete --exclude '.git' --exclude 'harness/target*' --exclude '.run' 
 mkdir -p "$SV/evidence"
 sed -i "s#\"/repo/#\"$SR/#g" "$SV/harness/Cargo.toml" "$SV/harness/fuzz/Cargo.toml"
 if ! ( cd "$SR" && git apply "$patch" ); then echo "patch does not apply"; exit 8; fi
-( cd "$SV" && ./check "$prop" "$tier" > /tmp/try_mutant_scratch.out 2>&1 ); rc=$?
+( cd "$SV" && ./check "$prop" "$tier" > $OUT 2>&1 ); rc=$?
 ( cd "$SR" && git checkout -- . )
-grep -E "^VIOLATION|signature=|KNOWN-FINDING|INCONCLUSIVE|^C[0-9]+ " /tmp/try_mutant_scratch.out | cut -c1-260 | head -${MAXLINES:-12}
+grep -E "^VIOLATION|signature=|KNOWN-FINDING|INCONCLUSIVE|^C[0-9]+ " $OUT | cut -c1-260 | head -${MAXLINES:-12}
 echo "exit=$rc"
 exit $rc
